@@ -83,6 +83,12 @@ void harness(void) {
   struct heap *h = heap_init();
   for (int i = 0; i < 9; ++i) heap_push(h, i, A);
   for (int i = 0; i < 8; ++i) heap_pop(h, A);
+#elif SCEN == 15 /* heap of the DJB compiler: allocation of the heap itself */
+  extern struct heap *heap_init(void);
+  extern void heap_free(struct heap *h);
+  struct heap *h = heap_init();
+  VASSERT(h != NULL, "heap complete");
+  heap_free(h);
 #elif SCEN == 12 /* mzd_from_str, randomize, density helpers */
   mzd_t *A = mzd_from_str(2, 3, "101011"); OKM(A);
 #endif
